@@ -31,6 +31,7 @@ type knownFinding struct {
 	Property  string `json:"property"`
 	Signature string `json:"signature"`
 	What      string `json:"what"`
+	Line      string `json:"line"`
 	Commit    string `json:"commit,omitempty"`
 }
 
@@ -65,6 +66,7 @@ type replayFile struct {
 	Violation drv.Violation   `json:"violation"`
 	Signature string          `json:"signature"`
 	Extra     json.RawMessage `json:"extra,omitempty"`
+	Note      string          `json:"note,omitempty"`
 }
 
 func signature(id string, f *engine.Found) string {
@@ -170,7 +172,11 @@ func main() {
 		p := writeReplay(id, &f)
 		replayPaths = append(replayPaths, p)
 		fmt.Printf("VIOLATION property=%s replay=%s\n", id, p)
-		fmt.Printf("  %s: %s\n  history: %v\n", f.Scenario, f.V.Error(), f.Hist)
+		h := f.Hist
+		if len(h) > 12 {
+			h = h[len(h)-12:]
+		}
+		fmt.Printf("  %s: %s %s\n  history (last %d of %d ops): %v\n", f.Scenario, f.V.Error(), f.Note, len(h), len(f.Hist), h)
 		code = 1
 	}
 	writeEvidence(id, *tierS, seed, chk, total, t0, replayPaths, len(knownHit))
@@ -231,7 +237,10 @@ func findScenario(chk *props.Check, name string) *engine.Scenario {
 func reproduces(chk *props.Check, f *engine.Found) bool {
 	sc := findScenario(chk, f.Scenario)
 	if sc == nil {
-		return true // special checks confirm by themselves
+		if chk.Confirm != nil && f.Raw != nil {
+			return chk.Confirm(f.Raw)
+		}
+		return true
 	}
 	_, v := engine.RunHistory(sc, f.Cfg, nil, f.Hist)
 	return v != nil && v.Kind == f.V.Kind
@@ -244,6 +253,10 @@ func writeReplay(id string, f *engine.Found) string {
 	for _, op := range f.Hist {
 		rf.OpsText = append(rf.OpsText, op.String())
 	}
+	if f.Raw != nil {
+		rf.Extra = json.RawMessage(f.Raw)
+	}
+	rf.Note = f.Note
 	b, _ := json.MarshalIndent(rf, "", " ")
 	name := fmt.Sprintf("%s-%s-%s-%08x.json", id, f.V.Kind, f.OpKind, hash32(string(b)))
 	p := filepath.Join(dir, name)
